@@ -20,6 +20,7 @@ type C12Val struct {
 	Ref  int    `json:"ref,omitempty"`  // >0: an object
 	Text string `json:"text,omitempty"` // non-numeric scalar: what printing it shows (nil, true, false, a string)
 	Empty bool  `json:"empty,omitempty"` // the empty string
+	ArrRef int  `json:"arr_ref,omitempty"` // >0: an array whose first element is that object
 }
 
 type C12Block struct {
@@ -131,6 +132,9 @@ func (g *c12Gen) reaches(from, to int) bool {
 			if v.Ref > 0 && dfs(v.Ref) {
 				return true
 			}
+			if v.ArrRef > 0 && dfs(v.ArrRef) {
+				return true
+			}
 		}
 		return false
 	}
@@ -209,6 +213,9 @@ func (g *c12Gen) observe(op string) {
 				if val.Ref > 0 {
 					count(val.Ref)
 				}
+				if val.ArrRef > 0 {
+					count(val.ArrRef)
+				}
 			}
 		}
 		count(id)
@@ -260,7 +267,7 @@ func c12Program(s Src, maxOps int) (string, *C12Expect) {
 		for mi := 0; mi < nmut; mi++ {
 			kind := "literal"
 			if len(g.order) > 0 {
-				kind = Pick(s, "op", []string{"literal", "literal", "alias", "write-new", "write-existing", "write-existing", "delete", "delete", "fn-write", "fn-write-ret", "array-alias", "child", "child2", "child-write", "mk-twice", "fn-delete", "empty-literal", "read", "rewrite-literal"})
+				kind = Pick(s, "op", []string{"literal", "literal", "alias", "write-new", "write-existing", "write-existing", "delete", "delete", "fn-write", "fn-write-ret", "array-alias", "child", "child2", "child-write", "arr-prop", "arr-prop-write", "mk-twice", "fn-delete", "empty-literal", "read", "rewrite-literal"})
 			}
 			opName := kind
 			switch kind {
@@ -368,6 +375,34 @@ func c12Program(s Src, maxOps int) (string, *C12Expect) {
 				k := Pick(s, "key", c12Keys)
 				val := g.val()
 				g.add(fmt.Sprintf("%s.%s = %d;", p, k, val))
+				g.heap[cid][k] = C12Val{Num: val}
+			case "arr-prop":
+				p, c := g.pickVar("parent"), g.pickVar("childv")
+				pid, cid := g.vars[p], g.vars[c]
+				if g.reaches(cid, pid) {
+					opName = "noop"
+					g.add("// would create a cycle")
+					break
+				}
+				g.add(fmt.Sprintf("%s.arr = [%s, %d];", p, c, g.val()))
+				g.heap[pid]["arr"] = C12Val{ArrRef: cid}
+			case "arr-prop-write":
+				var cands []string
+				for _, v := range g.order {
+					if a, ok := g.heap[g.vars[v]]["arr"]; ok && a.ArrRef > 0 {
+						cands = append(cands, v)
+					}
+				}
+				if len(cands) == 0 {
+					opName = "noop"
+					g.add("// no array property to write through")
+					break
+				}
+				p := Pick(s, "parent", cands)
+				cid := g.heap[g.vars[p]]["arr"].ArrRef
+				k := Pick(s, "key", c12Keys)
+				val := g.val()
+				g.add(fmt.Sprintf("%s.arr[0].%s = %d;", p, k, val))
 				g.heap[cid][k] = C12Val{Num: val}
 			case "mk-twice":
 				// the same literal evaluated twice gives independent objects
@@ -698,6 +733,9 @@ func c12ValMatches(v C12Val, line string) bool {
 	if v.Ref > 0 {
 		return strings.HasPrefix(line, "map[")
 	}
+	if v.ArrRef > 0 {
+		return strings.HasPrefix(line, "[map[")
+	}
 	if v.Empty {
 		return line == ""
 	}
@@ -710,6 +748,9 @@ func c12ValMatches(v C12Val, line string) bool {
 func c12ValString(v C12Val) string {
 	if v.Ref > 0 {
 		return "an object"
+	}
+	if v.ArrRef > 0 {
+		return "an array holding an object"
 	}
 	if v.Empty {
 		return "the empty string"
